@@ -121,6 +121,8 @@ def main(argv: list[str]) -> int:
         print(f"quiet   {nq}/{len(quiet)} behaviour-preserving refactorings raise no alarm")
     print(f"selftest: {len(clean)} clean runs, {len(fired)} seeded defects, {len(quiet)} refactorings, {bad} problem(s)")
     (VERIF / "reports").mkdir(exist_ok=True)
-    (VERIF / "reports" / "selftest.json").write_text(json.dumps(
-        {"clean": [(p, rc) for p, rc, _ in clean], "seeded": fired, "benign": quiet}, indent=1))
+    res = json.dumps({"clean": [(p, rc) for p, rc, _ in clean], "seeded": fired, "benign": quiet}, indent=1)
+    (VERIF / "reports" / "selftest.json").write_text(res)
+    if not only:  # a full run: kept apart, partial runs do not overwrite it
+        (VERIF / "reports" / "selftest_full.json").write_text(res)
     return 1 if bad else 0
